@@ -8,9 +8,25 @@ CHOICES = [None, -1, 0, 1, 2, 5]
 CASE_T = 'case'
 
 
-def enum_text(root, marker, adds):
+NAME_POOL = ['for', 'in-order', 'loop', 'match', 'self', 'a-b', 'type', 'aB', 'x1', 'Self-x', 'fn', 'r-fn']
+
+
+def names_for(seed, n):
+    """deterministic distinct identifiers for the n items of an enumeration"""
+    if seed is None:
+        return ['e%d' % i for i in range(n)]
+    import random
+    r = random.Random(seed)
+    pool = NAME_POOL[:]
+    r.shuffle(pool)
+    return [(pool[i] if i < len(pool) and r.random() < 0.7 else 'e%d' % i) for i in range(n)]
+
+
+def enum_text(root, marker, adds, seed=None):
+    nm = names_for(seed, len(root) + len(adds))
+
     def it(i, x):
-        return 'e%d' % i if x is None else 'e%d(%d)' % (i, x)
+        return nm[i] if x is None else '%s(%d)' % (nm[i], x)
     parts = [it(i, x) for i, x in enumerate(root)]
     if marker:
         parts.append('...')
@@ -44,12 +60,12 @@ def gen_enums(ck):
         root = tuple(ck.rng.choice(pool) for _ in range(r))
         marker = a > 0 or ck.rng.random() < 0.5
         adds = tuple(ck.rng.choice(pool) for _ in range(a))
-        out.append((root, marker, adds))
+        out.append((root, marker, adds, ck.rng.randint(1, 10 ** 9)))
     return out
 
 
-def items_term(offset, xs):
-    return clist(['(%s, %s)' % (cstr('e%d' % (offset + i)), copt(x, cz)) for i, x in enumerate(xs)]) if xs else '(@nil item)'
+def items_term(names, xs):
+    return clist(['(%s, %s)' % (cstr(names[i]), copt(x, cz)) for i, x in enumerate(xs)]) if xs else '(@nil item)'
 
 
 def judge(ck, cases, results):
@@ -68,8 +84,9 @@ def judge(ck, cases, results):
             continue
         items = {it['name']: it for m in r['items'] for it in m.get('items', []) if it.get('kind') == 'enum'}
         for ei, e in enumerate(enums):
-            root, marker, adds = e
-            ck.note_case(repr(e), nontrivial=any(x is not None for x in root + adds) or marker)
+            root, marker, adds = e[:3]
+            nm = names_for(e[3] if len(e) > 3 else None, len(root) + len(adds))
+            ck.note_case(repr(e), nontrivial=any(x is not None for x in tuple(root) + tuple(adds)) or marker)
             ck.count('root=%d' % len(root)); ck.count('adds=%d' % len(adds))
             en = items.get('E%d' % ei)
             if en is None:
@@ -103,7 +120,7 @@ def judge(ck, cases, results):
             else:
                 ext = first_ext if first_ext is not None else (len(obs) if ne else None)
             terms.append('(%s, %s, %s, %s, %s)' % (
-                items_term(0, root), cbool(marker), items_term(len(root), adds),
+                items_term(nm, root), cbool(marker), items_term(nm[len(root):], adds),
                 clist(['(%s, %s)' % (cstr(n), cz(z)) for n, z in obs]) if obs else '(@nil (str * Z))',
                 copt(ext, cn)))
             idx.append((ci, ei))
@@ -113,7 +130,7 @@ def judge(ck, cases, results):
         ci, ei = idx[j]
         e = cases[ci]['_m'][ei]
         spec_bad.add(j)
-        ck.violation('impl-violation', module([e]), term=terms[j],
+        ck.violation('impl-violation', module([e]), term=terms[j], enum=list(e),
                      why='observed numbering violates X.680 §20 as worded by C14 (names in order, explicit kept, root '
                          'successive from 0 skipping used, additions fresh, all distinct, first-addition index)')
     for j in bad_corr:
@@ -143,25 +160,12 @@ def run(ck):
     judge(ck, cases, run_harness(cases))
 
 
-def parse_module(text):
-    enums = []
-    for m in re.finditer(r'ENUMERATED \{ (.*?) \}', text):
-        root, adds, marker = [], [], False
-        for tok in m.group(1).split(', '):
-            if tok == '...':
-                marker = True
-                continue
-            mm = re.match(r'e\d+(?:\((-?\d+)\))?$', tok)
-            (adds if marker else root).append(int(mm.group(1)) if mm.group(1) else None)
-        enums.append((tuple(root), marker, tuple(adds)))
-    return enums
-
-
 def replay(ck, data):
     ck.prove('Props/C14.v', ['RasnV.Props.C14'], extra=['Corr/C14.vo'])
     cases = []
     for v in data.get('violations', []):
-        if isinstance(v.get('case'), str):
-            es = parse_module(v['case'])
-            cases.append({'op': 'compile', 'sources': [module(es)], '_m': es})
+        if v.get('enum'):
+            e = v['enum']
+            e = (tuple(e[0]), bool(e[1]), tuple(e[2])) + ((e[3],) if len(e) > 3 else ())
+            cases.append({'op': 'compile', 'sources': [module([e])], '_m': [e]})
     judge(ck, cases, run_harness(cases))
